@@ -42,7 +42,7 @@ BUDGETS = {'C01': (50, 1200, 10), 'C02': (50, 1200, 10), 'C20': (50, 1200, 10)}
 LEVELS = {'C01': 'exploration', 'C02': 'exploration', 'C20': 'exploration'}
 WALL_LIMIT = {('C02', 'quick'): 240, ('C02', 'thorough'): 240}
 PROBES = {
-    'C01': ['page_with_over_1000_links', 'cycle', 'diamond', 'self_link', 'duplicate_link', 'alt_spelling', 'redirect', 'requisites', 'css_url', 'concurrency>1',
+    'C01': ['page_with_over_1000_links', 'linked_and_embedded', 'cycle', 'diamond', 'self_link', 'duplicate_link', 'alt_spelling', 'redirect', 'requisites', 'css_url', 'concurrency>1',
             'depth_limited', 'no_parent', 'regex', 'multi_start', 'redirect_target_also_linked', 'depth_race_possible', 'keepalive_off'],
     'C02': ['robots_fetch_failed', 'offered_foreign_host', 'offered_upward_path', 'offered_deep', 'offered_regex_rejected', 'offered_excluded_dir',
             'offered_rejected_suffix', 'cross_host_redirect', 'waiver_used', 'retry', 'requests_attributed', 'span_hosts_allow',
@@ -308,6 +308,8 @@ def reference_crawl(site, starts, opts, own_hosts, allow=None):
     while queue:
         u = queue.pop(0)
         rec = rows[u]
+        if rec.get('passes'):
+            continue            # already fetched through this record
         res = rec['res']
         ok, failed = refscope.passes(urld(res), rec, opts, own_hosts)
         rec['passes'] = ok
@@ -340,9 +342,16 @@ def reference_crawl(site, starts, opts, own_hosts, allow=None):
         children += [(dst, (rec['inline_level'] or 0) + 1) for dst, sp, tag in doc.inlines]
         for dst, il in children:
             child = {'res': dst, 'level': rec['level'] + 1, 'inline_level': il, 'parent': urld(res), 'root': root, 'try_count': 0}
-            if dst.url in rows:
+            if not _record_rules_pass(child, opts):
                 continue
-            if _record_rules_pass(child, opts):
+            child['pre'] = refscope.passes(urld(dst), child, opts, own_hosts)[0] and (allow is None or allow(dst))
+            old = rows.get(dst.url)
+            if old is None:
+                rows[dst.url] = child
+                queue.append(dst.url)
+            elif child['pre'] and not old.get('passes') and not old.get('pre', old['level'] == 0):
+                # discovered before through a record that fails a rule (e.g. an <a> link to an object outside the parent
+                # directory), now through one that passes (the same object embedded in a page): it is reachable in scope
                 rows[dst.url] = child
                 queue.append(dst.url)
     return rows, expected
@@ -512,6 +521,20 @@ def gen_c01(tape, tier):
     return site, starts, opts
 
 
+def _dual_record_upstream(u, ref_rows, rowmap, dual):
+    cur, n = u, 0
+    while cur is not None and n < 40:
+        rec = ref_rows.get(cur)
+        if rec is None:
+            return False
+        row = rowmap.get(cur)
+        if cur in dual and row is not None and (row['inline_level'] or None) != (rec['inline_level'] or None):
+            return True
+        cur = rec['parent']['url'] if rec['parent'] else None
+        n += 1
+    return False
+
+
 def judge_c01(r, site, starts, opts, out, rows, concurrency):
     P = 'C01'
     server = out['server']
@@ -555,11 +578,19 @@ def judge_c01(r, site, starts, opts, out, rows, concurrency):
     if deviating:
         r.probes['depth_race_possible'] += 1
     race = bool(deviating) and opts.get('level') not in ('inf',)
+    rowmap = {canon(x['url']): x for x in rows}
+    dual = ({d.url for res in site.order for d, _ in res.links if not isinstance(d, str)} &
+            {d.url for res in site.order for d, _, _ in res.inlines})
     for u in expected:
         if u not in reqs:
             row = [x for x in rows if canon(x['url']) == u]
             rec = ref_rows[u]
             sig = 'recorded-depth-differs-from-shortest-distance' if race else 'plain'
+            if sig == 'plain' and _dual_record_upstream(u, ref_rows, rowmap, dual):
+                # the URL itself, or one on its reference path, is both linked (<a>) and embedded; the table kept the first of
+                # the two discovery records (INSERT OR IGNORE), the reference path needs the other one
+                sig = 'first-discovery-record-wins:linked-and-embedded'
+                r.probes['linked_and_embedded'] += 1
             r.violate(P, 'missed-url', sig, '%s is in scope (shortest distance %d, inline %r) but was never requested; its row: %r; '
                       'rows whose recorded level differs from the shortest distance: %r (concurrency %d, -l %r)'
                       % (u, rec['level'], rec['inline_level'], [(x['status'], x['level'], x['inline_level'], x['parent']) for x in row][:1],
